@@ -16,9 +16,12 @@ type PrintCase struct {
 
 func genC18(r *rand.Rand, idx int, tier string) *PrintCase {
 	o := genC03(r, idx, tier)
-	for o.hasNegCost() {
-		idx += 7919
-		o = genC03(caseRand(int64(idx), idx), idx, tier)
+	if !o.NoCost && !o.NilWs && len(o.CostWs) > 0 && r.Intn(6) == 0 { // cost functions with negative coefficients are printed too
+		for i := range o.CostWs {
+			if r.Intn(2) == 0 {
+				o.CostWs[i] = -1 - r.Intn(5)
+			}
+		}
 	}
 	c := &PrintCase{Opt: o}
 	isCNF := !o.P.nonClausal() && o.P.Front != "opb"
@@ -112,6 +115,10 @@ func runC18(e *emitter, idx int, c *PrintCase) {
 			pb3, _ = solver.ParseCNF(strings.NewReader(text))
 		} else {
 			pb3, _ = solver.ParseOPB(strings.NewReader(text))
+		}
+		if o.hasNegCost() { // optimising with a negative cost coefficient is finding D6 (C03): only the texts are compared
+			reVerdict = -1
+			return
 		}
 		res := solver.New(pb3).Optimal(nil, nil)
 		reVerdict = verdictCode(res.Status)
